@@ -48,9 +48,16 @@ def minify_lib(src, config, keep_file=None):
     if config.startswith('keep_all'):
         args['keep_all_names'] = True
     if 'keep_file' in config:
-        args['keep_names_from_file'] = keep_file
+        # the file is named the ways open() takes a name: a str, the bytes of the name, a path object
+        import os
+        import pathlib
+        KEEP_FILE_ARG[0] += 1
+        args['keep_names_from_file'] = (keep_file, os.fsencode(keep_file), pathlib.Path(keep_file), keep_file)[KEEP_FILE_ARG[0] % 4]
     out = b''.join(L.to_lines(writer_cls=lua.LuaMinifyTokenWriter, writer_args=args))
     return L, out
+
+
+KEEP_FILE_ARG = [0]
 
 
 def comments_problem(rin, rout):
